@@ -89,6 +89,9 @@ impl ChainStorage {
     /// contract proved on the real body in unit `chain` (same text: contracts/get_block_driver.inc)
     #[verifier::external_body]
     pub fn get_block(&mut self, height: u64) -> (r: Result<Option<Block>>)
+        requires
+            // --verify looks up the predecessor's record (unit chain: pre:predecessor_record_retained)
+            height > 0 ==> old(self).chain_index.present().contains((height - 1) as u64),
 //@include contracts/get_block_driver.inc
     { unimplemented!() }
 
@@ -174,7 +177,7 @@ impl BlockchainParser {
             //# pre:tip_below_u64_max
             old(self).chain_storage.chain_index.max_height < u64::MAX,
             //# pre:index_holds_the_range   (established by ChainIndex::new -- assumed, see DESIGN C02)
-            forall|h: u64| old(self).cur_height <= h <= old(self).chain_storage.chain_index.max_height
+            forall|h: u64| old(self).cur_height <= h + 1 && h <= old(self).chain_storage.chain_index.max_height
                 ==> old(self).chain_storage.chain_index.present().contains(h),
         ensures
             //# C02:on_start_receives_start_height
@@ -204,7 +207,7 @@ impl BlockchainParser {
                 self.callback.completed() is None,
                 s0 == old(self).cur_height, m == old(self).chain_storage.chain_index.max_height,
                 m < u64::MAX,
-                forall|h: u64| s0 <= h <= m ==> self.chain_storage.chain_index.present().contains(h),
+                forall|h: u64| s0 <= h + 1 && h <= m ==> self.chain_storage.chain_index.present().contains(h),
                 //# inv:log_is_heights_so_far
                 self.callback.log() =~= heights(s0, s0 + iter.index@),
                 //# inv:cur_height_tracks_loop
